@@ -59,6 +59,8 @@ func main() {
 		modeC17(*rules)
 	case "c18":
 		modeC18()
+	case "c04":
+		modeC04(*thorough)
 	case "c13":
 		modeC13(*rules, *thorough)
 	case "c08":
